@@ -62,16 +62,11 @@ func (d *Deduplicator) NotifyDKGStarted(
 
 	// The cache key is the hexadecimal representation of the seed.
 	cacheKey := newDKGSeed.Text(16)
-	// If the key is not in the cache, that means the seed was not handled
-	// yet and the client should proceed with the execution.
-	if !d.dkgSeedCache.Has(cacheKey) {
-		d.dkgSeedCache.Add(cacheKey)
-		return true
-	}
-
-	// Otherwise, the DKG seed is a duplicate and the client should not proceed
-	// with the execution.
-	return false
+	// Add is atomic: it returns true only for the single caller that actually
+	// inserted the key. If the key was not in the cache, the seed was not
+	// handled yet and the client should proceed with the execution. Otherwise,
+	// the DKG seed is a duplicate and the client should not proceed.
+	return d.dkgSeedCache.Add(cacheKey)
 }
 
 // NotifyRelayEntryStarted notifies the client wants to start relay entry
